@@ -81,18 +81,18 @@ def orV (a b : Option V) : Option V :=
   | some v => some v
   | none => b
 
-def gObj : Nat := 0        -- the global object
-def objProto : Nat := 1    -- Object.prototype
+def objProto : Nat := 0    -- Object.prototype (allocated first: a prototype is older than its heirs)
+def gObj : Nat := 1        -- the global object
 def fnProto : Nat := 2     -- Function.prototype
 
 def initSt : St :=
-  { heap := [ { props := [], proto := some objProto, kind := .plain },
-              { props := [], proto := none, kind := .plain },
+  { heap := [ { props := [], proto := none, kind := .plain },
+              { props := [], proto := some objProto, kind := .plain },
               { props := [("call", .ref 3), ("apply", .ref 4), ("bind", .ref 5)], proto := some objProto, kind := .builtin "proto",
                 dontEnum := ["call", "apply", "bind"] },
-              { props := [], proto := some fnProto, kind := .builtin "call" },
-              { props := [], proto := some fnProto, kind := .builtin "apply" },
-              { props := [], proto := some fnProto, kind := .builtin "bind" } ],
+              { props := [("length", .num 1)], proto := some fnProto, kind := .builtin "call", dontEnum := ["length"] },
+              { props := [("length", .num 2)], proto := some fnProto, kind := .builtin "apply", dontEnum := ["length"] },
+              { props := [("length", .num 1)], proto := some fnProto, kind := .builtin "bind", dontEnum := ["length"] } ],
     envs := [ { vars := [], outer := none } ],     -- env 0: the global (object) environment over heap[0]
     trace := [] }
 
@@ -451,7 +451,7 @@ def mkFunc (σ : St) (code : FE) (env : Nat) : V × St :=
   (.ref f, σ2.setObj f fo)
 
 /-- §10.6 CreateArgumentsObject (non-strict: mapped) -/
-def mkArguments (σ : St) (params : List String) (args : List V) (env : Nat) : V × St :=
+def mkArguments (σ : St) (params : List String) (args : List V) (env : Nat) (callee : V) : V × St :=
   let idxProps : List (String × V) := (List.range args.length).zip args |>.map (fun (i, v) => (toString i, v))
   -- §10.6 step 11: indx runs from len−1 (len = number of ARGUMENTS) down to 0; a name is already in
   -- mappedNames only if a LATER position that also received an argument bears it
@@ -459,8 +459,9 @@ def mkArguments (σ : St) (params : List String) (args : List V) (env : Nat) : V
     match params[i]? with
     | some name => if ((params.take args.length).drop (i+1)).contains name then none else some name
     | none => none
-  let (a, σ') := σ.alloc { props := idxProps ++ [("length", .num args.length)], proto := some objProto, kind := .args map env,
-                           dontEnum := ["length"] }
+  -- step 7 `length`, step 13.a `callee` (non-strict code): writable, not enumerable, configurable
+  let (a, σ') := σ.alloc { props := idxProps ++ [("length", .num args.length), ("callee", callee)], proto := some objProto,
+                           kind := .args map env, dontEnum := ["length", "callee"] }
   (.ref a, σ')
 
 def evalListToArgs (σ : St) (arr : V) : List V :=
@@ -774,7 +775,7 @@ def callFn : Nat → St → V → V → List V → Res V
                 match σ3.envs[i]? with
                 | some e => (match lookupA "arguments" e.vars with
                   | some _ => σ3
-                  | none => let (av, s') := mkArguments σ3 ps args i; bindIn s' i "arguments" av true)
+                  | none => let (av, s') := mkArguments σ3 ps args i fv; bindIn s' i "arguments" av true)
                 | none => σ3
               -- step 8: variable declarations
               let σ5 := vs.foldl (fun s x => bindIn s i x .undef false) σ4
